@@ -238,6 +238,8 @@ def run(prog, ctx):
     # ------------------------------------------------------------------ D7
     from ..hats import check_hat_centre
     ctx.floor("C16.D7", check_hat_centre(prog, ctx, "C16.D7"), 3, "hat implementations analysed for the centre rule")
+    from ..hats import check_support_enumeration
+    ctx.floor("C16.D7.support", check_support_enumeration(prog, ctx, "C16.D7"), 1, "floor/ceil enumerations of the hats around a sample")
 
     # ------------------------------------------------------------------ D5
     for fq in (DE + ".solve_density_estimation", DE + ".solve_density_estimation_dimension_wise"):
